@@ -19,7 +19,7 @@ def text_of(rel, n):
     b, e = A.src_range_text(n)
     if b is None or not e:
         return ""
-    return re.sub(r"\s+", "", src(rel)[b:e].decode("latin1"))
+    return A.squeeze(src(rel)[b:e].decode("latin1"))
 
 
 def strip(n):
@@ -255,4 +255,15 @@ def ext_units(pid):
                 U.must_fail_twin(r, "vacuity.must_fail_twin", lambda: f(twin=True))
             return r
         out.append((uid, g))
+    return out
+
+
+def cases(hy, cond):
+    """spec-side case split: [(hypotheses + [cond], True), (hypotheses + [not cond], False)] restricted to the cases the path can be in
+    (a case is dropped only when the path condition refutes it).  The specification is then demanded in every remaining case, so a changed
+    branch condition in the code shows up as a counterexample in the case where code and specification differ, not as an undecided split."""
+    out = []
+    for c, v in ((cond, True), (tm.not_(cond), False)):
+        if B.z3_prove(list(hy), tm.not_(c))[0] != "proved":
+            out.append((list(hy) + [c], v))
     return out
